@@ -92,7 +92,9 @@ def run(ck: Check) -> int:
                         continue
                     if ts is None or tb is None:
                         continue
-                    if ([e(x) for x in ts[0]], [e(x) for x in ts[1]]) != (tb[0], tb[1]):
+                    # the one sanctioned difference: the full-range spelling of an emptied class (UNICODE_RANGE vs ASCII_RANGE)
+                    er = lambda x: x.replace('\u0000-\U0010ffff', '\x00-\xff').encode('latin-1')  # noqa: E731
+                    if ([er(x) for x in ts[0]], [er(x) for x in ts[1]]) != (tb[0], tb[1]):
                         ck.report(Failing('translate(bytes) is not the encoded translate(str)', {'api': mod.__name__, 'pattern': p, 'flags': fl}, ts, tb), None)
                     ms, mb = mod.compile(p, flags=fl), mod.compile(e(p), flags=fl)
                     for x in names:
@@ -119,13 +121,17 @@ def run(ck: Check) -> int:
             if len(sr.samples) < 3:
                 sr.samples.append({'api': mod.__name__, 'pattern': p, 'flags': hex(fl)})
         # single bytes 0x80-0xff against bracket / POSIX forms
-        forms = ['[[:alpha:]]', '[![:alpha:]]', '[[:ascii:]]', '[![:ascii:]]', '[[:print:]]', '[[:word:]]', '[a-\xff]', '[!a-z]', '?', '*', '[\x80-\x90]', '[[:punct:][:digit:]]']
+        forms = ['[[:alpha:]]', '[![:alpha:]]', '[[:ascii:]]', '[![:ascii:]]', '[[:print:]]', '[[:word:]]', '[a-\xff]', '[!a-z]', '?', '*', '[\x80-\x90]', '[[:punct:][:digit:]]',
+                 # classes emptied by the reversed-range check become "match nothing" / "match any code unit" (ASCII_RANGE vs
+                 # UNICODE_RANGE twins; added after seeded change C18a)
+                 '[z-a]', '[!z-a]', '[9-0z-a]', '[!9-0]', '[^z-a]', '[b-a]*', '?[!b-a]']
         for fm in forms:
             mb = F.compile(fm.encode('latin-1'), flags=F.FORCEUNIX)
             ms = F.compile(fm, flags=F.FORCEUNIX)
             for b in range(0x80, 0x100):
                 sr.evaluations += 1
-                if bool(mb.match(bytes([b]))) != bool(ms.match(chr(b))):
+                subj = bytes([b]) if len(fm) < 7 or fm.startswith('[') and fm.endswith(']') else bytes([b, b])
+                if bool(mb.match(subj)) != bool(ms.match(subj.decode('latin-1'))):
                     ck.report(Failing(f'byte {b:#x} vs Latin-1 char differ for {fm!r}', {'api': 'fnmatch', 'pattern': fm, 'byte': b}, bool(ms.match(chr(b))), bool(mb.match(bytes([b])))), None)
         # glob / WcMatch on a generated tree with str vs bytes roots
         tmp = tempfile.mkdtemp(prefix='c18-', dir='/tmp')
